@@ -429,6 +429,30 @@ def categorize (s : RSys) (checks : List Check) : Except CatErr Categories :=
           unaffected := ks.filter fun k => categoryOf irr.rxns k = .unaffected
           nonparticipating := ks.filter fun k => categoryOf irr.rxns k = .nonparticipating }
 
+/-- `categorize_substances(checks=checks, missing_substances_from_keys=missing, sort_substances=…)`: the keyword arguments go to
+    the constructor of the temporary irreversible system, which is built on a COPY of the receiver's substances (the receiver, and the
+    dict it was built on, are never touched). With `missing`, every reaction key becomes a substance of the temporary system and is
+    categorised too (no reactions: `set.union(*[])` TypeError). The result is four SETS, so neither the hash order in which missing keys
+    are added nor `sort_substances` can be observed. -/
+inductive CatKwErr where
+  | cat (e : CatErr)
+  | typeError
+deriving DecidableEq, Repr
+
+def categorizeKw (s : RSys) (checks : List Check) (missing : Bool) : Except CatKwErr Categories :=
+  if !missing then
+    match categorize s checks with
+    | .ok c => .ok c
+    | .error e => .error (.cat e)
+  else
+    match expand s.rxns with
+    | .error e => .error (.cat (.expand e))
+    | .ok irrev =>
+      if irrev.isEmpty then .error .typeError
+      else match categorize ⟨s.rxns, addMissing s.substs irrev⟩ checks with
+        | .ok c => .ok c
+        | .error e => .error (.cat e)
+
 /-! #### the refusal of negative totals (line 199-200)
 
 The stoichiometric coefficients of the model are `Nat`. Reactions built with `checks=()` may carry negative numbers; the only
@@ -739,6 +763,8 @@ inductive HOp where
   | iadd (i j : Nat)             -- store[i] += store[j]
   | subset (i : Nat) (p : Pred)  -- store.extend(store[i].subset(p))
   | split (i : Nat)              -- store.extend(store[i].split(checks=()))
+  | query (i : Nat)              -- store[i].categorize_substances(checks=(), missing_substances_from_keys=…, sort_substances=…): a
+                                 -- query; whatever it returns or raises, the store is left as it is
   | concat (is : List Nat)       -- a, b = concatenate([store[k] for k in is]); store.append(a) unless len(is) == 1 (then a IS store[is[0]]); store.append(b)
 deriving Repr
 
@@ -768,6 +794,9 @@ def runOp (store : List RSys) : HOp → Except HErr (List RSys)
     | some a => match split a [] with
       | .ok l => .ok (store ++ l.map (·.2))
       | .error _ => .error .split
+    | none => .error .index
+  | .query i => match store[i]? with
+    | some _ => .ok store
     | none => .error .index
   | .concat is => match getAll store is with
     | some l => match concatenate l with
